@@ -8,6 +8,11 @@ pub mod c06;
 pub mod c07;
 pub mod c08;
 pub mod paging;
+pub mod c11;
+pub mod c12;
+pub mod c14;
+pub mod c15;
+pub mod c16;
 pub mod c17;
 pub mod c18;
 
@@ -23,6 +28,11 @@ pub fn run(a: &Args, rep: &mut Report) -> bool {
         "c02" => paging::run(a, rep, "c02"),
         "c09" => paging::run(a, rep, "c09"),
         "c10" => paging::run(a, rep, "c10"),
+        "c11" => c11::run(a, rep),
+        "c12" => c12::run(a, rep),
+        "c14" => c14::run(a, rep),
+        "c15" => c15::run(a, rep),
+        "c16" => c16::run(a, rep),
         "c17" => c17::run(a, rep),
         "c18" => c18::run(a, rep),
         _ => return false,
